@@ -1540,6 +1540,7 @@ class MulPart(PointIO):
         self.not_built = set()
         self.confined = load_confined()
         self.stepped = 0
+        self.tmax = set()
         X = B.X
         self.tabsz = {"basic": X["RLC_EB_TABLE_BASIC"], "combs": X["RLC_EB_TABLE_COMBS"],
                       "combd": X["RLC_EB_TABLE_COMBD"], "lwnaf": X["RLC_EB_TABLE_LWNAF"]}
@@ -1713,10 +1714,39 @@ class MulPart(PointIO):
         return k
 
     def kc(self, cv, d, k):
-        """scalar class; for base points outside <G> only 'in range' / 'not in range' is distinguished"""
+        """scalar class; for base points outside <G> only 'in range' / 'not in range' is distinguished;
+        tag t: an in-range scalar chosen for an exceptionally long tau-adic NAF (Koblitz curves)"""
         if cv.pcls(d) in ("o2", "o4", "out"):
             return "in" if cv.in_range(k) else "off"
-        return cv.kcls(k)
+        c = cv.kcls(k)
+        if k in self.tmax and c.startswith("r+"):
+            c = "t" + c[1:]
+        return c
+
+    def tnaf_extremes(self, cv, samples):
+        """Koblitz curves: in-range scalars whose tau-adic NAF is as long as it gets.  The library's own
+        recoding is used to *find* them (rejection sampling); the verdict on [k]P stays with the model."""
+        R, rng = self.R, self.rng
+        if not (cv.kbltz and R.has("bn_rec_tnaf")):
+            return []
+        u = -1 if R.L.eb_curve_opt_a() == 0 else 1
+        cap = self.B.m + 8
+        buf, ln = R.mem(cap, 0), R.mem(8, 0)
+        best = []
+        try:
+            for _ in range(samples):
+                k = rng.randrange(1, cv.n)
+                R.bn_put(self.k, k)
+                R.wr_sz(ln, cap)
+                r = R.raw("bn_rec_tnaf", buf, ln, self.k, u & 0xFF, self.B.m, R.K["RLC_WIDTH"])
+                best.append((R.rd_sz(ln), k))
+        finally:
+            R.free(buf)
+            R.free(ln)
+        best.sort(reverse=True)
+        top = best[:6]
+        self.ctx.note("tnaf_longest_lengths_found", {str(l): 1 for l, _ in top})
+        return [k for _, k in top]
 
     def mul_case(self, cv, fn, d, k, force=False):
         ctx, R, B = self.ctx, self.R, self.B
@@ -1924,6 +1954,24 @@ class MulPart(PointIO):
                             self.fix_case(cv, fix, tab, d, k)
                         R.free(tab)
             i += 1
+        # Koblitz: scalars with maximal tau-adic length through every routine that recodes with bn_rec_tnaf
+        ext = self.tnaf_extremes(cv, ctx.n(1500, 6000))
+        self.tmax = set(ext)
+        if ext:
+            for k in ext:
+                for fn in muls:
+                    if impl_of(R, fn) in self.TNAF:
+                        self.mul_case(cv, fn, rp, k)
+                for fn in sims:
+                    if impl_of(R, fn) in self.TNAF:
+                        self.sim_case(cv, fn, rp, (self.pool[-2], 0), "ne", k, ext[0])
+            for pre, fix, size in fixes:
+                if impl_of(R, fix) == "eb_mul_fix_lwnaf":
+                    tab = self.fix_table(cv, pre, size, rp)
+                    if tab:
+                        for k in ext:
+                            self.fix_case(cv, fix, tab, rp, k)
+                        R.free(tab)
         # exceptional base points through every fixed-base variant
         for pre, fix, size in fixes:
             for d in ((0, cv.h // 2), (0, 1), (rp[0], cv.h // 2), (0, 0)):
